@@ -4,6 +4,7 @@ import (
 	"fmt"
 	"go/constant"
 	"go/types"
+	"sort"
 	"strings"
 
 	"golang.org/x/tools/go/ssa"
@@ -273,6 +274,19 @@ func (x *Exec) builtin(fr *Frame, st *State, b *ssa.Builtin, args []Val, cc *ssa
 			}
 			return []Val{Sc{mkIte(c, a.T, bb.T), a.GT}}
 		}
+		if a.T.Sort == sF64 && len(args) == 2 {
+			// Go: NaN if either operand is NaN; -0 is smaller than +0
+			nan := mkOr(app(sBool, "fp.isNaN", a.T), app(sBool, "fp.isNaN", bb.T))
+			lt, gt := app(sBool, "fp.lt", a.T, bb.T), app(sBool, "fp.gt", a.T, bb.T)
+			neg := app(sBool, "fp.isNegative", a.T)
+			var pick Term
+			if b.Name() == "min" {
+				pick = mkIte(lt, a.T, mkIte(gt, bb.T, mkIte(neg, a.T, bb.T)))
+			} else {
+				pick = mkIte(gt, a.T, mkIte(lt, bb.T, mkIte(neg, bb.T, a.T)))
+			}
+			return []Val{Sc{mkIte(nan, Term{S: "(_ NaN 11 53)", Sort: sF64}, pick), a.GT}}
+		}
 	}
 	fail("unsupported builtin %s(%T...)", b.Name(), args[0])
 	return nil
@@ -487,10 +501,52 @@ func (x *Exec) invoke(fr *Frame, st *State, cc *ssa.CallCommon, recv Val, args [
 		key += "(" + typeStr(cc.Value.Type()) + ")." + cc.Method.Name()
 	}
 	if c, ok := x.prog.specs.Funcs[key]; ok {
+		if c.Opts["dispatch"] != "" {
+			x.dispatch(fr, st, cc, it, args, ins, k)
+			return
+		}
 		x.applyContract(fr, st, c, cc.Signature(), append([]Val{recv}, args...), ins, key, k)
 		return
 	}
 	x.havocCall(fr, st, cc.Signature(), "interface method "+key+" without contract", ins, k)
+}
+
+// dispatch: closed-world case split of an interface method call over the concrete types of the loaded packages
+// that implement the interface (opt dispatch on the interface method's contract). Each case calls the concrete
+// method like a static call (its own contract, or inlined).
+func (x *Exec) dispatch(fr *Frame, st *State, cc *ssa.CallCommon, recv Sc, args []Val, ins ssa.Instruction, k kont) {
+	iface, ok := cc.Value.Type().Underlying().(*types.Interface)
+	if !ok {
+		fail("dispatch on non-interface %s", cc.Value.Type())
+	}
+	type impl struct {
+		t  types.Type
+		fn *ssa.Function
+	}
+	var impls []impl
+	for _, t := range x.implementers(iface) {
+		sel := x.prog.prog.MethodSets.MethodSet(t).Lookup(cc.Method.Pkg(), cc.Method.Name())
+		if sel == nil {
+			continue
+		}
+		if fn := x.prog.prog.MethodValue(sel); fn != nil {
+			impls = append(impls, impl{t, fn})
+		}
+	}
+	if len(impls) == 0 {
+		fail("dispatch: no implementation of %s.%s in the loaded packages", typeStr(cc.Value.Type()), cc.Method.Name())
+	}
+	x.note("closed world: " + typeStr(cc.Value.Type()) + "." + cc.Method.Name() + " is implemented only by the types of the loaded packages of /repo")
+	for _, im := range impls {
+		cond := x.hasTag(recv.T, im.t)
+		if cond.S == "false" {
+			continue
+		}
+		st2, fr2 := st.clone(), fr.clone()
+		st2.pc = append(st2.pc, cond)
+		rv := x.unbox(recv.T, im.t)
+		x.staticCall(fr2, st2, im.fn, append([]Val{rv}, args...), ins, k)
+	}
 }
 
 // ---- contract application ----
@@ -826,4 +882,31 @@ func usesAny(text string, names map[string]bool) bool {
 		}
 	}
 	return false
+}
+
+// implementers: the concrete types of the loaded packages (T or *T) that implement iface, in a stable order.
+func (x *Exec) implementers(iface *types.Interface) []types.Type {
+	var out []types.Type
+	for _, p := range x.prog.pkgs {
+		var names []string
+		for n := range p.Members {
+			names = append(names, n)
+		}
+		sort.Strings(names)
+		for _, n := range names {
+			tm, ok := p.Members[n].(*ssa.Type)
+			if !ok {
+				continue
+			}
+			if _, isI := tm.Type().Underlying().(*types.Interface); isI {
+				continue
+			}
+			for _, t := range []types.Type{tm.Type(), types.NewPointer(tm.Type())} {
+				if types.Implements(t, iface) {
+					out = append(out, t)
+				}
+			}
+		}
+	}
+	return out
 }
